@@ -92,4 +92,6 @@ def main() -> None:
             net.fail(cls, "after a rejected statement the written stream no longer decodes to the accepted statements", inp, got, want)
     net.finish("bounded", "2..5 statements, one unencodable statement (unsupported term / typed literal with datatype table disabled / short tuple) at every position and slot, optionally retried, frame sizes {1,2,3,250}, TRIPLES and QUADS",
                "each case = (cause, position, slot, retry, frame size, statements); failures classed `partial` (known finding D6) or `no-trace-expected`")
-main()
+if __name__ == "__main__":
+    from common import run_main
+    run_main(main, "C20")
